@@ -8,6 +8,15 @@ def run(ctx, v, path):
         if T['errors']:
             print('cannot rebuild the harness:', T['errors'][:1]); return 2
         n = v['schema']
+        if v.get('deep'):
+            o, m, c, k = v['deep']
+            import subprocess
+            p = subprocess.run([T['harness'], 'deep', n, v['twin'], o, m, c, str(k)], capture_output=True, text=True, timeout=600)
+            print(p.stdout.strip()[-400:])
+            if 'T-DEEP-PASS' in p.stdout: return 0
+            if 'T-DEEP-D' in p.stdout or 'T-DEEP-REJECT' in p.stdout:
+                print('VIOLATION property=%s replay=%s' % (ctx.prop, path)); return 1
+            return 2
         if 'kv' in v:
             if n in T.get('excluded', []):
                 print('schema %s no longer compiles' % n); return 1
